@@ -292,7 +292,7 @@ def filter_jobs(ctx, n):
         if path == "streaming" and tail and rng.random() < 0.6:
             tail = 0        # the streaming path ignores --tail (F10): keep most streaming runs informative
         jobs.append({"seed": ctx.seed * 7919 + i, "prof": prof, "path": path, "read0": rng.random() < 0.4,
-                     "header": header, "tail": tail, "nth": rng.choice(["", "", "", "..", "{..}"])})
+                     "header": header, "tail": tail, "nth": rng.choice(["", "", "", "..", "{..}", "{n}:{..}", "2.."])})
     # the documented-example shapes, always present
     for k, (path, tail) in enumerate([("sorted", 2), ("streaming", 2), ("sorted", 0), ("streaming", 0)]):
         jobs.append({"seed": ctx.seed * 31 + k, "prof": "tiny", "path": path, "read0": False, "header": 0, "tail": tail,
@@ -439,7 +439,7 @@ def bind_tty(ctx):
     for i in range(ctx.pick(24, 240)):
         jobs.append({"seed": ctx.seed * 104729 + i, "prof": rng.choice(["medium", "medium", "big", "many" if i % 5 == 0 else "medium"]),
                      "path": "interactive", "read0": rng.random() < 0.3, "header": rng.choice([0, 0, 1, 3]),
-                     "tail": rng.choice([0, 1, 2, 7, 99, 100, 101, 250, 1000]), "nth": rng.choice(["", "", ".."]),
+                     "tail": rng.choice([0, 1, 2, 7, 99, 100, 101, 250, 1000]), "nth": rng.choice(["", "", "..", "{n} {1}"]),
                      "work": ctx.work})
     recs, bad = judge_binary(ctx, fzf, jobs, run_tty, "tty", 4)
     ctx.cov["interactive_sessions"] = {"runs": len(recs), "rejected": len(bad),
@@ -477,8 +477,8 @@ def run(ctx):
     if want("mc"):
         # coverage statistics slow TLC down ~10x: the vacuity check runs on the small configurations, the large
         # reader configuration of the thorough tier runs without
-        runs = [("MC_Reader", "MC_Reader_quick.cfg", True), ("MC_ChunkList", "MC_ChunkList_quick.cfg", True),
-                ("MC_ChunkList", "MC_ChunkList3.cfg", True)]
+        runs = [("MC_Reader", "MC_Reader_cov.cfg", True), ("MC_Reader", "MC_Reader_quick.cfg", False),
+                ("MC_ChunkList", "MC_ChunkList_quick.cfg", True), ("MC_ChunkList", "MC_ChunkList3.cfg", False)]
         if not ctx.quick:
             runs += [("MC_Reader", "MC_Reader.cfg", False), ("MC_ChunkList", "MC_ChunkList.cfg", False)]
         for mod, cfg, cover in runs:
@@ -504,6 +504,27 @@ def run(ctx):
     if want("tty"):
         nt += bind_tty(ctx)
     ctx.cov["distinct_nontrivial"] = nt
+    ctx.cov["rule"] = (
+        "sum over the bindings of the cases that can distinguish a wrong reader/item layer: (E feed) distinct TLC behaviours of "
+        "FzfReader with the real 64K/128K constants that emit >= 2 items over >= 3 read() calls, each replayed under both "
+        "delimiters; (E chunk list) TLC behaviours of FzfChunkList (chunk size 100) with a Push after a Snapshot; (J feed) "
+        "random real feed() executions with >= 2 items and >= 3 reads judged by folding the spec's step function; (J binary) "
+        "runs of the real binary on streams with >= 2 records; (J interactive) tmux sessions in which --tail actually trimmed. "
+        "Classes exercised are counted in feed_behaviour_classes / chunklist_behaviours / binary_runs / interactive_sessions.")
+    ctx.cov["exhaustive"] = False
+    ctx.assumptions += [
+        "read() never returns data together with an error and never returns (0, nil) (OS-faithful; the reader's handling of "
+        "both is a code-derived corner that is not fed)",
+        "CR trimming is Windows-only and not modelled; on this platform a record ending in CR keeps it",
+        "readerBufferSize/readerSlabSize/chunkSize are Go constants: the exhaustive all-chunkings exploration (buffer 3, slab 6, "
+        "chunk 2..3) exists on the model only; the real code is bound with the real constants on TLC-chosen interesting read "
+        "sizes plus random ones",
+        "record contents at the process boundary are valid UTF-8 without leading/trailing blanks (fzf decodes text; invalid "
+        "UTF-8 is outside the property); the in-package harness uses arbitrary bytes 11..255",
+        "item numbering is observed through --listen (GET /) in interactive sessions only; filter mode shows order, count, "
+        "content, header diversion and tail",
+        "the index of the first non-header record is 0 (code-derived; the manual only says zero-based)",
+    ]
     return "model_checking"
 
 
